@@ -398,3 +398,66 @@ def rule_E5(prog):
                                    sc.cursors[c]), file=fn.file, line=line)
                         break
     return r
+
+
+def rule_E6(prog):
+    r = RuleResult("E6", "no stale position snapshot: a local computed from a cursor (`let rest = base + old_idx`) is not used as "
+                         "the position of a hook call that can be reached, without re-computing the local, after another hook "
+                         "call consumed items of that cursor's side")
+    for fn in prog.user_fns():
+        if not fn.mir or fn.module not in SCOPE_MODULES:
+            continue
+        sc = CursorScan(fn)
+        if not sc.cursors:
+            continue
+        m = fn.mir
+        ems = list(emissions(fn))
+        for bb2, t2, meth2 in ems:
+            op2, ol2, np2, nl2 = SIG[meth2]
+            for side, pi in (("old", op2), ("new", np2)):
+                if pi is None or pi >= len(t2["args"]):
+                    continue
+                a = t2["args"][pi]
+                if a.get("k") not in ("copy", "move") or a["p"]["proj"]:
+                    continue
+                # the argument is (a copy of) a named local S with one definition
+                term = m.resolve_operand(a)
+                if not (isinstance(term, tuple) and term and term[0] == "local" and isinstance(term[2], int) and term[2] > m.arg_count):
+                    continue
+                S = term[2]
+                sd = m.single_def(S)
+                if not sd or S in sc.cursors:
+                    continue
+                posl = norm(lin(m, m.expand(term, depth=3)))
+                curs = [c for c, name in sc.cursors.items() if posl.get(term_str(("local", name, c))) == 1]
+                if not curs:
+                    continue
+                c = curs[0]
+                defbb = sd[0]
+                r.instances += 1
+                stale = None
+                for bb1, t1, meth1 in ems:
+                    if bb1 == bb2:
+                        continue
+                    o1, ol1, n1, nl1 = SIG[meth1]
+                    li = ol1 if side == "old" else nl1
+                    if li is None or li >= len(t1["args"]):
+                        continue
+                    # E1 consumes items of this side; is E2 reachable from E1 without passing S's definition again?
+                    if not m.dominates(defbb, bb1) or t1.get("target") is None:
+                        continue
+                    reach = m.reach_from([t1["target"]], stop=(defbb,))
+                    if bb2 in reach:
+                        stale = (t1, meth1)
+                        break
+                ok = stale is None
+                r.ob(ok, "%s: `%s` (line %d): position `%s` (from cursor %s) %s" % (
+                    fn.path, t2.get("src", meth2)[:50], t2["line"], m.local_name(S), sc.cursors[c],
+                    "is fresh" if ok else "is stale after `%s`" % stale[0].get("src", stale[1])[:40]))
+                if not ok:
+                    r.find(fn.path, "stale-position:%s" % m.local_name(S),
+                           "`%s` reports the %s position `%s`, computed from cursor `%s` before `%s` consumed %s items: the "
+                           "position no longer is where the previous segment stopped" % (
+                               t2.get("src", meth2)[:70], side, m.local_name(S), sc.cursors[c],
+                               stale[0].get("src", stale[1])[:50], side), file=fn.file, line=t2["line"])
+    return r
